@@ -41,7 +41,12 @@ def compare(dec, built, paths, cases, stats, what='vm-vs-oracle', bound_handled_
         for (oc, oev, okind) in cases:
             stats.obligations += 1
             kind_differs = (p.kind != okind)
-            d = True if kind_differs else events_differ_cond(T, p.events, oev)
+            if p.kind == 'diverge-output' and okind == 'diverge-output':
+                # both sides repeat output for ever; the detection points differ, compare the common prefix
+                n = min(len(p.events), len(oev))
+                d = events_differ_cond(T, p.events[:n], oev[:n])
+            else:
+                d = True if kind_differs else events_differ_cond(T, p.events, oev)
             if d is None:
                 stats.discharged += 1
                 stats.syntactic += 1
